@@ -256,6 +256,7 @@ impl Env {
         if self.cfg.persistent {
             if let Some(disk) = &self.disk {
                 disk.materialize();
+                disk.set_ring_mode(self.cfg.ring);
             }
             b = b
                 .device_path(self.path.clone())
@@ -311,6 +312,10 @@ impl Env {
     pub fn close(&mut self) {
         if let Some(store) = self.store.take() {
             drop(store);
+        }
+        // writes the kernel still owned when their ring was closed are read now, after the store is gone
+        if let Some(disk) = &self.disk {
+            disk.ring_finish();
         }
     }
 
